@@ -326,12 +326,16 @@ dround_ddur(struct dt_d_s d, struct dt_ddur_s dur, bool nextp)
 
 		switch (d.typ) {
 			unsigned int mdays;
+			unsigned int ctgt;
 		case DT_YMD:
-			if ((forw && d.ymd.d < tgt) ||
-			    (!forw && d.ymd.d > tgt)) {
+			/* the target as it exists in the current month */
+			mdays = __get_mdays(d.ymd.y, d.ymd.m);
+			ctgt = tgt <= mdays ? tgt : mdays;
+			if ((forw && d.ymd.d < ctgt) ||
+			    (!forw && d.ymd.d > ctgt)) {
 				/* no month or year adjustment */
 				;
-			} else if (d.ymd.d == tgt && !nextp) {
+			} else if (d.ymd.d == ctgt && !nextp) {
 				/* we're ON the date already and no
 				 * next/prev date is requested */
 				;
@@ -570,8 +574,9 @@ sxround_dur_cocl(dt_sexy_t t, struct dt_dtdur_s dur, bool nextp)
 	default:
 		return t;
 	}
-	/* unpack t */
-	with (unsigned int diff = t % (dt_sexy_t)sdur) {
+	/* unpack t, mind the sign of the remainder for epochs before 1970 */
+	with (unsigned int diff = (unsigned int)
+		     (t % (dt_sexy_t)sdur + (t % (dt_sexy_t)sdur < 0 ? sdur : 0))) {
 		if (!diff && !nextp) {
 			/* do nothing, i.e. really nothing,
 			 * in particular, don't set the slots again in the
